@@ -474,7 +474,7 @@ def api(g, cx, op, st):
         if sn.ok and sn.value and op["li"] % 3 != 1:
             # (the name of a segment of the document, whatever it looks like)
             a = sn.value[op["li"] % len(sn.value)]
-        o = cx.call("gfa.multiply(%r,%d)" % (a[:40], op["li"] % 4), g.multiply, a, op["li"] % 4)
+        o = cx.call("gfa.multiply(%r,%d)" % (str(a)[:40], op["li"] % 4), g.multiply, a, op["li"] % 4)
     elif c == "merge":
         o = cx.call("gfa.merge_linear_paths()", g.merge_linear_paths)
     elif c == "remove_small":
